@@ -2,7 +2,7 @@
    Theorems about the scope machinery and the loop-range function of the visitor model; the
    model is tied to /repo by the correspondence run of ./check C08. *)
 From Coq Require Import ZArith List Bool String.
-From Verif Require Import BGate PyVal Ast State Unroll ResolveProofs ScopeProofs ControlProofs StackProofs DefProofs Depth DepthModel FixProofs LoopProofs.
+From Verif Require Import BGate PyVal Ast State Unroll ResolveProofs ScopeProofs ControlProofs StackProofs DefProofs Depth DepthModel FixProofs LoopProofs BroadcastProofs ModUnrollProofs LoopModProofs GateDefProofs.
 Import ListNotations.
 Open Scope Z_scope.
 
@@ -250,3 +250,24 @@ Example C08_loops_example :
   expand env0 (decls ++ [SFor (TInt None) "pi" (rng 0 1) [SGate [] "h" [] [q 0]]]) = None /\
   expand env0 (decls ++ [SFor (TInt None) "i" (rng 2 1) [SGate [] "h" [] [q 9]]]) = Some decls.
 Proof. vm_compute. repeat split; reflexivity. Qed.
+
+(* LOOP BODIES IN GENERAL (Lang/LoopModProofs.v, inside the judgement `gjudge` of Props/C01.v): a body statement may be a flat
+   operation indexed by the loop variable (above) or any library gate, under any stack of inv / pow(k), with closed parameter
+   expressions, on registers, literal slices, literal bits or bits indexed by the loop variable; each iteration emits what the
+   statement unrolls to at that value.  One loop statement, unroll mode: *)
+Theorem C08_loop_with_general_body_unrolls_iteration_by_iteration f env G s stm out evs :
+  Top env s -> gates s = G -> gloop_ok env G stm = Some (out, evs) ->
+  exists s', visit_stmt false [] (S (S f)) stm s = Ok (out, s') /\ DE s s' /\ Dstep s s' evs.
+Proof. exact (gloop_fix f env G s stm out evs). Qed.
+Print Assumptions C08_loop_with_general_body_unrolls_iteration_by_iteration.
+
+Example C08_general_loop_example :
+  let q k := QIdx "q" [IdxList [IExpr (ELit (VInt k))]] in
+  let qi := QIdx "q" [IdxList [IExpr (EId "i")]] in
+  let p := [SInclude "stdgates.inc"; SQubitDecl "q" (Some (ELit (VInt 4))); SClassicalDecl (TBit (Some (ELit (VInt 4)))) "c" None;
+            SFor (TInt None) "i" (FRange (Some (ELit (VInt 0))) (Some (ELit (VInt 2))) None)
+              [SGate [] "cnot" [] [qi; q 3]; SGate [MInv] "s" [] [qi]; SGate [MPow (Some (ELit (VInt 2)))] "rx" [EUn "-" (ELit (VInt 1))] [qi];
+               SMeasure qi (Some (QIdx "c" [IdxList [IExpr (EId "i")]]))]] in
+  option_map (fun r => List.length (fst r)) (gjudge p) = Some 18%nat /\
+  match unroll_v false [] p, gjudge p with Ok o, Some (e, _) => list_eqb stmt_eqb (o_stmts o) e | _, _ => false end = true.
+Proof. vm_compute. split; reflexivity. Qed.
